@@ -229,6 +229,14 @@ class ValidationScenario(StateScenario):
         rec.log("load_tree", path, canon(tree), type(err).__name__ if err else "ok")
         rec.kind("ok" if err is None else "rej")
         self.judge_return(st, rec, target, snode, path, i0, fired0, "load-tree" + ("-empty" if not tree else ""), err)
+        if not tree and err is not None and not (st.B.fault_fired > fired0):
+            # an empty map changes nothing, so the call amounts to validate(): it may raise only if the audit finds
+            # an unmet requirement or a failing validator on an *enabled* configuration
+            problems, vals = [], []
+            if self.audit(st, target, snode, path, problems, vals) and not problems:
+                rec.check()
+                rec.fail("C11/exempt", "C11/empty-load-raises-on-valid-state",
+                         "load_tree({}) raised %s although every enabled configuration is complete and valid" % (err,))
 
     def c11_loads(self, st, cfg, op, rec, i0, fired0):
         tree = dec(op["tree"])
